@@ -207,6 +207,8 @@ def structural_selection(viol):
             continue
         if ann in ("Unitary", ):      # the unitary shortcut of inv legitimately pre-empts the structural rule
             continue
+        if ".nonsq" in opname:        # factor-wise rules are conditional on square factors (inv/slogdet of Product,
+            continue                  # diag of Kronecker / BlockDiag): with non-square factors they do not apply
         checked += 1
         m = model[k]
         if m["tag"] == "ok" and not m["structural"]:
